@@ -1,12 +1,14 @@
 def register(PROPS, HARNESS_PKGS):
-    def g(rates, bursts, beh, kinds='{"rate", "size"}'):
-        return {"module": "AdmissionGen", "cfg": "Admission_gen.cfg", "params": {"Rates": rates, "Bursts": bursts, "Behaviours": beh, "Kinds": kinds}}
-    allb = '{"keepalive1", "newconn", "conns4", "burst", "twoips", "mixpaths", "drainwait"}'
+    def g(rates, bursts, beh, kinds='{"rate", "size"}', globals_="{0}"):
+        return {"module": "AdmissionGen", "cfg": "Admission_gen.cfg", "params": {"Rates": rates, "Bursts": bursts, "Behaviours": beh, "Kinds": kinds, "Globals": globals_}}
+    allb = '{"keepalive1", "newconn", "conns4", "burst", "twoips", "mixpaths", "drainwait", "mixhealth"}'
     part = {
         "name": "admission",
         "mc": [{"module": "Admission", "cfg": "Admission_mc.cfg"}],
-        "quick": {"gen": [g("{60, 600}", "{1, 3}", allb)]},
-        "thorough": {"gen": [g("{60, 120, 600}", "{1, 3, 5}", allb)]},
+        "quick": {"gen": [g("{60, 600}", "{1, 3}", allb),
+                          # a global limit next to the per-IP one (tighter and looser than it)
+                          g("{60, 600}", "{3}", '{"keepalive1", "twoips", "mixhealth"}', '{"rate"}', "{120}")]},
+        "thorough": {"gen": [g("{60, 120, 600}", "{1, 3, 5}", allb), g("{60, 120, 600}", "{1, 3, 5}", allb, '{"rate"}', "{60, 300}")]},
         "pkg": "internal/app", "test": "TestVerif_Admission",
         "harness_files": ["stack_test.go", "dispatch_test.go", "admission_test.go"],
         "trace": {"module": "AdmissionTrace", "cfg": "Admission_trace.cfg"},
@@ -21,7 +23,7 @@ def register(PROPS, HARNESS_PKGS):
     HARNESS_PKGS.setdefault("security", "internal/adapter/security")
     PROPS["C17"] = {
         "rule": "TLC enumerates the admission grid: (rate, burst) x client behaviour (one keep-alive connection, a new "
-                "connection per request, 4 parallel connections, a concurrent burst, two source IPs, one client rotating over the proxy, provider and Anthropic routes, one that drains its burst and comes back after several housekeeping sweeps of the limiter) and body size "
+                "connection per request, 4 parallel connections, a concurrent burst, two source IPs, one client rotating over the proxy, provider and Anthropic routes, one that drains its burst and comes back after several housekeeping sweeps of the limiter, one that mixes health-endpoint requests in), with and without a global limit next to the per-IP one and body size "
                 "(max-1, max, max+1, 5*max) x declared/chunked length x route (proxy, provider, Anthropic); each runs "
                 "against the assembled server with those limits; every request is recorded with its [send, recv] "
                 "interval, status, whether a backend saw it and how many body bytes the backend got; TLC checks the "
